@@ -12,7 +12,7 @@ cp /repo/go.sum "$T/harness/go.sum"
 cp specs/*.tla "$T/"
 fail=0
 for f in "$T"/*.tla; do
-  case "$f" in *Obs.tla|*.tmpl.tla) continue;; esac
+  case "$f" in *.tmpl.tla) continue;; esac
   if ! (cd "$T" && java -cp /opt/veriftools/tla/tla2tools.jar:/opt/veriftools/tla/CommunityModules-deps.jar tla2sany.SANY "$(basename "$f")" >"$T/sany.out" 2>&1); then
     echo "SANY failed on $f"; tail -5 "$T/sany.out"; fail=1
   fi
